@@ -47,12 +47,23 @@ type SkelSpec struct {
 	Calls []string `json:"calls"` // selector suffixes that count as effectful (e.g. "storage.Get", "mu.Lock")
 }
 
+// LitSpec: integer/duration fields of the composite literal returned by a
+// configuration constructor (e.g. DefaultIPRateLimitConfig), emitted as constants.
+type LitSpec struct {
+	Dir    string   `json:"dir"`
+	Func   string   `json:"func"`
+	NS     string   `json:"ns"`
+	Fields []string `json:"fields"`
+}
+
 type Spec struct {
-	Module  string     `json:"module"`  // output file Gen/<Module>.lean
-	Imports []string   `json:"imports"` // other Gen modules this one refers to
-	Consts []ConstSpec `json:"consts"`
-	Preds  []PredSpec  `json:"preds"`
-	Skels  []SkelSpec  `json:"skels"`
+	Module      string      `json:"module"`       // output file Gen/<Module>.lean
+	Imports     []string    `json:"imports"`      // other Gen modules this one refers to
+	LeanImports []string    `json:"lean_imports"` // hand-written Lean modules (receiver structures of translated predicates)
+	Lits        []LitSpec   `json:"lits"`
+	Consts      []ConstSpec `json:"consts"`
+	Preds       []PredSpec  `json:"preds"`
+	Skels       []SkelSpec  `json:"skels"`
 }
 
 var fset = token.NewFileSet()
@@ -623,6 +634,57 @@ func selStr(e ast.Expr) string {
 	return "?"
 }
 
+// ---------------------------------------------------------------- literals
+
+// genLit emits the listed fields of the (single) composite literal that the
+// function returns, evaluated as constants.
+func genLit(root string, ls *LitSpec, out *strings.Builder) {
+	p := loadPkg(root, ls.Dir)
+	fd, ok := p.funcs[ls.Func]
+	if !ok {
+		die("lit: function %s not found in %s", ls.Func, ls.Dir)
+	}
+	var lit *ast.CompositeLit
+	n := 0
+	ast.Inspect(fd.Body, func(nd ast.Node) bool {
+		if rs, ok := nd.(*ast.ReturnStmt); ok && len(rs.Results) == 1 {
+			e := rs.Results[0]
+			if u, ok := e.(*ast.UnaryExpr); ok && u.Op == token.AND {
+				e = u.X
+			}
+			if cl, ok := e.(*ast.CompositeLit); ok {
+				lit = cl
+				n++
+			}
+		}
+		return true
+	})
+	if lit == nil || n != 1 {
+		die("lit: %s must return exactly one composite literal (found %d)", ls.Func, n)
+	}
+	vals := map[string]ast.Expr{}
+	for _, el := range lit.Elts {
+		if kv, ok := el.(*ast.KeyValueExpr); ok {
+			if k, ok := kv.Key.(*ast.Ident); ok {
+				vals[k.Name] = kv.Value
+			}
+		}
+	}
+	fmt.Fprintf(out, "namespace %s\n", ls.NS)
+	for _, f := range ls.Fields {
+		e, ok := vals[f]
+		if !ok {
+			die("lit: field %s not set in the literal returned by %s", f, ls.Func)
+		}
+		v := evalConst(p, e, 0, 0)
+		if v.isStr || v.isF || v.i < 0 {
+			die("lit: field %s of %s is not a natural number", f, ls.Func)
+		}
+		fmt.Fprintf(out, "def %s : Nat := %d\n", leanIdent(f), v.i)
+	}
+	fmt.Fprintf(out, "end %s\n\n", ls.NS)
+}
+
 // ---------------------------------------------------------------- main
 
 func writeIfChanged(path, content string) {
@@ -645,7 +707,13 @@ func genModule(repo string, spec *Spec, outDir string) {
 	for _, im := range spec.Imports {
 		cs.WriteString("import TunnoxModel.Gen." + im + "\n")
 	}
+	for _, im := range spec.LeanImports {
+		cs.WriteString("import " + im + "\n")
+	}
 	cs.WriteString("open Tunnox.PredPrelude\nnamespace Gen\n\n")
+	for _, l := range spec.Lits {
+		genLit(repo, &l, &cs)
+	}
 	for _, c := range spec.Consts {
 		p := loadPkg(repo, c.Dir)
 		fmt.Fprintf(&cs, "namespace %s\n", c.NS)
